@@ -38,8 +38,16 @@ pub fn from_str<S: Src, const N: usize, const ZONED: bool>(s: &mut S) -> Verdict
 pub fn from_str_boundary<S: Src, const L: usize, const TOTAL: usize>(s: &mut S) -> Verdict {
     // text: label of L bytes, then labels of up to 50 bytes until the wire length (with root) is TOTAL
     let mut text: Vec<u8> = Vec::new();
-    let c = s.u8();
+    // names that must be accepted: the first character is symbolic (any LDH_ character) and a
+    // library error is a failed check; for the other lengths everything is concrete and error
+    // paths are explored (a symbolic character would make the '.'-branch of the converter merge
+    // into every later step)
+    let must_accept = L <= 62 && TOTAL <= 253;
+    let c = if must_accept { s.u8() } else { b'a' };
     vassume!(spec::is_ldhu(c));
+    if must_accept {
+        cut_errors(2);
+    }
     text.push(c);
     let mut i = 1;
     while i < L {
@@ -62,6 +70,7 @@ pub fn from_str_boundary<S: Src, const L: usize, const TOTAL: usize>(s: &mut S) 
         wire += 1 + l;
     }
     let r = r#gen::raw_name_from_str(&text, None);
+    cut_errors(0);
     let class = spec::text_class(&text, 0);
     match r {
         Ok(w) => {
